@@ -530,7 +530,8 @@ def c11InUpdate (st : BkState) (pre : Server) (ws : List String) (io : ImplOut) 
         | some cid, [a, b] =>
           match a.toNat?, b.toNat?, liveConnOf pre cid with
           | some a, some b, some n =>
-            let opn := ((st.inOpen.find? (·.1 == n)).map (·.2) |>.getD []).length
+            -- open inbound exchanges: the PUBREC records (type 5) the real broker itself lists for this client
+            let opn := (((kvGet kv "fl").getD "").splitOn ":t5:").length - 1
             if a + opn < b then
               [fail "C11" (if st.sawQos2.contains n then "F11" else "-")
                 s!"client {idh} on c{n}: receive quota {a} of {b} with {opn} inbound exchange(s) open — {b - a - opn} unit(s) leaked"]
